@@ -6,7 +6,7 @@ PATCH="$1"; TIER="$2"; shift 2
 HERE="$(cd "$(dirname "$0")/.." && pwd)"
 SCR="$(mktemp -d /tmp/mxv_mut.XXXXXX)"
 rsync -a --exclude .git /repo/ "$SCR/repo/" || exit 2
-( cd "$SCR/repo" && patch -p1 -s < "$PATCH" ) || { echo "PATCH FAILED"; rm -rf "$SCR"; exit 2; }
+( cd "$SCR/repo" && patch -p1 -s --no-backup-if-mismatch < "$PATCH" ) || { echo "PATCH FAILED"; rm -rf "$SCR"; exit 2; }
 RC=0
 for P in "$@"; do
   OUT=$(cd "$HERE" && MXV_REPO="$SCR/repo" ./check "$P" --tier "$TIER" --no-evidence 2>&1)
